@@ -147,7 +147,9 @@ def battery():
             ("sub-packages", subpackage_api(), "transport=grpc,autogen-snippets=false", None),
             ("client-api", apis.client_api(), "transport=grpc+rest", None),
             ("retry-codes", apis.retry_api(), "transport=grpc", apis.RETRY_CONFIGS[1]),
-            ("selective", apis.samples_api(), "transport=grpc+rest", None)]
+            ("selective", apis.samples_api(), "transport=grpc+rest", None),
+            # one service polling three extended-operation services: a SET of services reaches the transport templates
+            ("extended-operations", apis.compute_api(), "transport=rest", None)]
 
 
 def replay_request(label, seeds):
@@ -211,6 +213,7 @@ def body(chk: core.Check):
     chk.extra["python_sites"] = {k: sum(1 for s in sites if s["kind"] == k) for k in ("insensitive", "sorted", "raw")}
     chk.extra["template_sites"] = {k: sum(1 for s in tsites if s["kind"] == k) for k in ("membership", "truthiness", "sorted", "raw", "other")}
     unknown_raw = []
+    key_ties = []
     # ---- python sites
     for s in sites:
         key = f"{s['file']}:{s['function']}:{s['id']}"
@@ -220,7 +223,16 @@ def body(chk: core.Check):
             if s["detail"] in ("key=identity", "GeneratorExp", "ListComp"):
                 chk.ok("site:sorted-identity", key)
             else:
-                unknown_raw.append(f"sorted with a key function at {key}: {s['code']}")
+                # sorted(<set of str>, key=<lambda>): order-insensitive iff the key is injective (BSTR + z3, checks/_keyinj.py)
+                from checks import _keyinj
+                verdict, what, st = _keyinj.key_injective(s["detail"][len("key="):])
+                chk.encoded(f"{s['file']}:{s['function']}: {s['code']}", s["code"])
+                if verdict == "injective":
+                    chk.ok("site:sorted-key-injective", key, st["solver_s"], n=max(st["leaves"], 1))
+                elif verdict == "collision":
+                    key_ties.append((key, s["code"], what))
+                else:
+                    unknown_raw.append(f"sorted with a key function at {key}: {s['code']} ({what})")
         else:
             j = [v for (fn, frag), v in JUSTIFIED.items() if fn == s["function"] and frag in s["code"]]
             if j and (j[0][1] is None or side_condition(j[0][1], repo)):
@@ -309,6 +321,14 @@ def body(chk: core.Check):
                           f"response depends on the hash seed: {diffs[label]}", {"kind": "replay", "label": label, "seeds": seeds})
         else:
             chk.fail_inconclusive(f"sort key not injective at {key} ({a!r} vs {b!r}) but the replay did not differ")
+    for key, code, (a, b) in key_ties:
+        if diffs:
+            label = sorted(diffs)[0]
+            chk.violation(f"sorted-key-ties:{key.split(':')[1]}", f"{code}: the distinct elements {a!r} and {b!r} have equal sort keys, so "
+                          f"ties keep the set's iteration order, and the response depends on the hash seed: {diffs[label]}",
+                          {"kind": "replay", "label": label, "seeds": seeds})
+        else:
+            chk.fail_inconclusive(f"sort key of {code} at {key} is not injective ({a!r} vs {b!r}) but no replayed request differed")
     for label, d in diffs.items():
         if label == "same-short-resource-name" and sat_models:
             continue
@@ -319,6 +339,11 @@ def body(chk: core.Check):
     elif unknown_raw:
         chk.extra["unclassified_sites"] = unknown_raw
     chk.twin("inventory is non-empty", len(sites) > 3 and len(tsites) > 5)
+    from checks import _keyinj
+    v1, w1, _s1 = _keyinj.key_injective("lambda i: i.split('#')[0].rstrip()")
+    v2, _w2, _s2 = _keyinj.key_injective("lambda i: (i.lower(), i)")
+    chk.canary("key-injectivity engine: comment-stripping key collides, (lower, identity) key does not", v1 == "collision" and v2 == "injective",
+               f"{v1} {w1} / {v2}")
     # canary: the injectivity query must be sat for the short-name key alone
     t1, t2 = z3.Strings("u1 u2")
     typ = z3.Concat(z3.Plus(z3.Range("a", "z")), z3.Re("/"), z3.Plus(z3.Range("A", "Z")))
